@@ -473,3 +473,116 @@ Proof. exact from_yaml_then_init_reads_yaml_txn. Qed.
 
 Print Assumptions C13_from_yaml_relative_indexes.
 Print Assumptions C13_configuration_listing_read_as_model.
+
+(* ------------------------------------------------------------------------------------------------------------
+   Extension (last sentence of the property, SINGLE-FIELD detectors): the side condition leaves_justified of
+   C13_single_contract_verdict_equal_exact is discharged from the solver's equations for every function with a
+   well-formed graph (GraphWf.graph_wf: every parsed structured contract) that has no callsub / retsub, and the
+   result of run_all -- Lemmas/GroupSem4.v *)
+From Tealer Require Import Paths GraphWf GroupSem3 GroupSem4.
+
+(* one solve of one key: a block at which the result holds a prime point dg of the domain is reachable from the
+   entry through blocks at which the result holds it (and whose block constraint admits it) *)
+Theorem C13_one_key_unvalidated_reachable :
+  forall (T : Type) (t_eqb : T -> T -> bool) (univ null : T) (union inter : T -> T -> T)
+         (single : Syntax.instr -> nat -> list StackAst.sval -> T * T) (f : func) (dg : T -> Prop),
+    ~ dg null -> (forall a b, dg (union a b) -> dg a \/ dg b) -> (forall a b, dg (inter a b) -> dg a /\ dg b) ->
+    dg univ -> (forall a b, dg a -> dg (union a b)) -> (forall a b, dg b -> dg (union a b)) ->
+    (forall a b, dg a -> dg b -> dg (inter a b)) -> (forall a b, t_eqb a b = true -> (dg a <-> dg b)) ->
+    (forall a, t_eqb a a = true) ->
+    graph_wf f = true -> subroutine_free f ->
+    forall (bc : list (nat * T)) (fuel : nat) (lo : list (nat * T)) (v : nat -> bool),
+    solve T t_eqb univ null union inter single f fuel bc = Done lo ->
+    (forall b, (exists x, Analysis.lookup T lo b = Some x /\ dg x) ->
+               ExactLemmas.okb T unit (pgamma T dg) tt bc b -> v b = false) ->
+    forall b x, Analysis.lookup T lo b = Some x -> dg x -> UReach f v b.
+Proof. exact solve_unvalidated_reachable. Qed.
+
+(* run_family (own key, possible indices, at-index keys): for a validation predicate that reads one key family
+   through a prime point (single_key_pred), every unvalidated exit ends a path of unvalidated blocks *)
+Theorem C13_unvalidated_leaf_has_unvalidated_path :
+  forall (T : Type) (t_eqb : T -> T -> bool) (univ null : T) (union inter : T -> T -> T)
+         (single : Keys.keyfam -> Syntax.instr -> nat -> list StackAst.sval -> T * T) (dg : T -> Prop),
+    ~ dg null -> (forall a b, dg (union a b) -> dg a \/ dg b) -> (forall a b, dg (inter a b) -> dg a /\ dg b) ->
+    dg univ -> (forall a b, dg a -> dg (union a b)) -> (forall a b, dg b -> dg (union a b)) ->
+    (forall a b, dg a -> dg b -> dg (inter a b)) -> (forall a b, t_eqb a b = true -> (dg a <-> dg b)) ->
+    (forall a, t_eqb a a = true) ->
+    forall (f : func) (fuel : nat) (indices : list (nat * list Z)) (res : list (Keys.keyfam * list (nat * T))),
+    graph_wf f = true -> subroutine_free f ->
+    run_family f fuel t_eqb univ null union inter single indices = Done res ->
+    (forall b l i, Analysis.lookup _ indices b = Some l -> In i l -> (0 <= i < 16)%Z) ->
+    forall (v : nat -> bool) (b : nat),
+    single_key_pred T univ dg indices res v -> fn_leaf_block f b -> v b = false ->
+    exists p, GoodPath f v p /\ last p 0 = b.
+Proof. exact unvalidated_leaf_has_unvalidated_path. Qed.
+
+(* missing-fee-check: the one-transaction group reports the transaction IFF the single-contract detector reports a path *)
+Theorem C13_single_contract_verdict_equal_missing_fee_check :
+  forall funcs dtype vtypes t k f r fuelr fuel ps,
+    single_contract t k -> nth_error funcs k = Some (f, r) -> relative_accessors [t] t = [] ->
+    eligible dtype vtypes t -> g_abs t = None ->
+    graph_wf f = true -> subroutine_free f -> run_all f fuelr = Done r ->
+    run_detector f r fuel "missing-fee-check" Leaves.checks_missing_fee_check = Done ps ->
+    (txn_vulnerable funcs Leaves.checks_missing_fee_check dtype vtypes [t] t = true <-> ps <> []).
+Proof. exact single_group_eq_contract_fee. Qed.
+
+(* ... stated on source programs: every parsed structured contract without subroutines *)
+Theorem C13_single_contract_verdict_equal_missing_fee_check_parsed :
+  forall funcs dtype vtypes t k p tl r fuelr fuel ps,
+    Cfg.parse_teal p = Parse.Ok tl -> struct_ok tl -> subroutine_free (whole_function tl) ->
+    single_contract t k -> nth_error funcs k = Some (whole_function tl, r) -> relative_accessors [t] t = [] ->
+    eligible dtype vtypes t -> g_abs t = None ->
+    run_all (whole_function tl) fuelr = Done r ->
+    run_detector (whole_function tl) r fuel "missing-fee-check" Leaves.checks_missing_fee_check = Done ps ->
+    (txn_vulnerable funcs Leaves.checks_missing_fee_check dtype vtypes [t] t = true <-> ps <> []).
+Proof. exact single_group_eq_contract_fee_parsed. Qed.
+
+(* the unvalidated exit itself is the end of a reported-path candidate *)
+Theorem C13_missing_fee_check_unvalidated_exit_ends_a_path :
+  forall f fuel r b,
+    graph_wf f = true -> subroutine_free f -> run_all f fuel = Done r ->
+    fn_leaf_block f b -> validated_in_block r Leaves.checks_missing_fee_check None b = false ->
+    exists p, GoodPath f (validated_in_block r Leaves.checks_missing_fee_check None) p /\ last p 0 = b.
+Proof. exact unvalidated_leaf_has_unvalidated_path_fee. Qed.
+
+(* the kind-only detectors *)
+Theorem C13_single_contract_verdict_equal_is_updatable :
+  forall funcs dtype vtypes t k f r fuelr fuel ps,
+    single_contract t k -> nth_error funcs k = Some (f, r) -> relative_accessors [t] t = [] ->
+    eligible dtype vtypes t -> g_abs t = None ->
+    graph_wf f = true -> subroutine_free f -> run_all f fuelr = Done r ->
+    run_detector f r fuel "is-updatable" Leaves.checks_is_updatable = Done ps ->
+    (txn_vulnerable funcs Leaves.checks_is_updatable dtype vtypes [t] t = true <-> ps <> []).
+Proof. exact single_group_eq_contract_updatable. Qed.
+
+Theorem C13_single_contract_verdict_equal_is_deletable :
+  forall funcs dtype vtypes t k f r fuelr fuel ps,
+    single_contract t k -> nth_error funcs k = Some (f, r) -> relative_accessors [t] t = [] ->
+    eligible dtype vtypes t -> g_abs t = None ->
+    graph_wf f = true -> subroutine_free f -> run_all f fuelr = Done r ->
+    run_detector f r fuel "is-deletable" Leaves.checks_is_deletable = Done ps ->
+    (txn_vulnerable funcs Leaves.checks_is_deletable dtype vtypes [t] t = true <-> ps <> []).
+Proof. exact single_group_eq_contract_deletable. Qed.
+
+Print Assumptions C13_one_key_unvalidated_reachable.
+Print Assumptions C13_unvalidated_leaf_has_unvalidated_path.
+Print Assumptions C13_single_contract_verdict_equal_missing_fee_check.
+Print Assumptions C13_single_contract_verdict_equal_missing_fee_check_parsed.
+Print Assumptions C13_missing_fee_check_unvalidated_exit_ends_a_path.
+Print Assumptions C13_single_contract_verdict_equal_is_updatable.
+Print Assumptions C13_single_contract_verdict_equal_is_deletable.
+
+(* the hypothesis "no callsub / retsub" cannot simply be dropped: on a parsed structured non-recursive logic-sig whose
+   subroutine both approves and returns (the shape of finding D4) missing-fee-check reports no path while group mode
+   reports the transaction (GroupSem4.FeeSubRefuted; replayed on the implementation) *)
+Theorem C13_single_contract_verdict_equal_missing_fee_check_subroutine_refuted :
+  ~ (forall funcs dtype vtypes t k p tl r fuelr fuel ps,
+       Cfg.parse_teal p = Parse.Ok tl -> struct_ok tl -> graph_wf (whole_function tl) = true ->
+       single_contract t k -> nth_error funcs k = Some (whole_function tl, r) -> relative_accessors [t] t = [] ->
+       eligible dtype vtypes t -> g_abs t = None ->
+       run_all (whole_function tl) fuelr = Done r ->
+       run_detector (whole_function tl) r fuel "missing-fee-check" Leaves.checks_missing_fee_check = Done ps ->
+       (txn_vulnerable funcs Leaves.checks_missing_fee_check dtype vtypes [t] t = true <-> ps <> [])).
+Proof. exact single_group_eq_contract_fee_subroutine_refuted. Qed.
+
+Print Assumptions C13_single_contract_verdict_equal_missing_fee_check_subroutine_refuted.
